@@ -39,9 +39,6 @@ theorem isPlusSum_ddParen (e : Node) (args asg : List Node) (m : String) (sp : S
   unfold ddParen
   split <;> exact ⟨rfl, rfl⟩
 
-theorem reqOwn_other (cfg : Config) (d : String) (sp0 : Span) (n : Node)
-    (hb : ∀ op l r sp, n ≠ .bin op l r sp) (ht : ∀ es qs sp, n ≠ .tpl es qs sp) : reqOwn cfg d sp0 n = 0 := by
-  cases n <;> first | rfl | (exfalso; exact hb _ _ _ _ rfl) | (exfalso; exact ht _ _ _ rfl)
 
 theorem visitedKids_other (cfg : Config) (n : Node)
     (h1 : ∀ ss sp, n ≠ .block ss sp) (h2 : ∀ ps b a sp, n ≠ .arrow ps b a sp) (h3 : ∀ o b sp, n ≠ .optChain o b sp)
